@@ -110,7 +110,7 @@ def generate(seed, run, tier):
             f["line"] = rf.choice(INSERT[rf.choice(classes)])
         faults.append(f)
     edits = []
-    for _ in range(rs.choice([0, 0, 1, 2, 4, 10])):
+    for _ in range(rs.choice([0, 0, 1, 2, 4, 10] if tier == "quick" else [0, 1, 2, 4, 10, 20])):
         k = rq.choice(["new_block", "add_change", "add_change", "package", "version",
                        "distributions", "urgency", "author", "date", "block_set", "block_set",
                        "block_add_change", "hold", "held_set", "held_set", "str", "str"])
